@@ -270,7 +270,7 @@ func PartA(spec EngSpec, col *ev.Collector, withinPrefixOnly bool, reduced bool,
 	counts := []int{-1, 0, 1, 2}
 	if reduced {
 		offsets = []int{0, 1}
-		counts = []int{-1, 1}
+		counts = []int{-1, 0, 1} // 0: a limit of zero elements is a limit, not "no limit"
 	}
 	n := len(Universe)
 	for mask := 0; mask < 1<<n; mask++ {
